@@ -105,6 +105,29 @@ func runVariantCatalogue(spec *PropSpec, repo, verif string) interface{} {
 		}
 		jobs = append(jobs, j)
 	}
+	// behaviour-preserving refactorings written against this property: must stay silent
+	refDirs, _ := filepath.Glob(filepath.Join(verif, "refactors", spec.ID+"-*"))
+	sort.Strings(refDirs)
+	for _, sd := range refDirs {
+		sd := sd
+		id := "refactor:" + filepath.Base(sd)
+		r := &variantResult{ID: id, Kind: "benign", Note: "independent sub-agent refactoring that preserves behaviour and passes the suite"}
+		dst := filepath.Join(tmp, "ref-"+filepath.Base(sd))
+		j := &job{res: r, args: []string{"-property", spec.ID, "-tier", "quick", "-no-evidence", "-repo", dst, "-verif", verif}}
+		j.prep = func() error {
+			if out, err := exec.Command("cp", "-r", repo, dst).CombinedOutput(); err != nil {
+				return fmt.Errorf("copy: %v %s", err, out)
+			}
+			os.RemoveAll(filepath.Join(dst, ".git"))
+			cmd := exec.Command("git", "apply", filepath.Join(sd, "patch.diff"))
+			cmd.Dir = dst
+			if out, err := cmd.CombinedOutput(); err != nil {
+				return fmt.Errorf("patch does not apply to the current tree: %s", strings.TrimSpace(string(out)))
+			}
+			return nil
+		}
+		jobs = append(jobs, j)
+	}
 	sem := make(chan struct{}, 8)
 	var wg sync.WaitGroup
 	for _, j := range jobs {
